@@ -23,7 +23,7 @@ import (
 )
 
 func gen(r *rand.Rand, tier string, i int) msgh.Input {
-	p := msgh.Profile{MinOps: 6, MaxOps: 34, Collide: 0.12, EmptyPayload: 0.0015, MutWeight: 62, BatchRate: 0.03, TrimRetry: 0.5, TrimScenario: 0.12}
+	p := msgh.Profile{MinOps: 6, MaxOps: 34, Collide: 0.12, EmptyPayload: 0.0015, MutWeight: 62, BatchRate: 0.03, TrimRetry: 0.5, TrimScenario: 0.12, DiscardRate: 0.02}
 	if tier == "thorough" {
 		p.MaxOps = 90
 	}
